@@ -130,7 +130,7 @@ func c01WaitsForEveryBatch(p *load.Program, r *oblig.Report, rule string) {
 	}
 	var sel *ssa.Select
 	an.EachInstr(fn, func(ins ssa.Instruction) {
-		if s, ok := ins.(*ssa.Select); ok && s.Parent() == fn {
+		if s, ok := ins.(*ssa.Select); ok { // (also inside a helper that did not exist at review time)
 			for _, st := range s.States {
 				if st.Dir == types.RecvOnly && strings.HasSuffix(clean(an.Shape(st.Chan)), ".done") {
 					sel = s
@@ -144,7 +144,7 @@ func c01WaitsForEveryBatch(p *load.Program, r *oblig.Report, rule string) {
 	}
 	// the loop around the select
 	inLoop := map[*ssa.BasicBlock]bool{}
-	for _, b := range fn.Blocks {
+	for _, b := range sel.Parent().Blocks {
 		if b == sel.Block() || (blockReaches(sel.Block(), b) && blockReaches(b, sel.Block())) {
 			inLoop[b] = true
 		}
